@@ -506,7 +506,8 @@ func posScenarios(id, tier string) []Scenario {
 		k, d := kd(2, 4, 3, 4)
 		k2, d2 := kd(2, 3, 3, 3)
 		return fromStates([]Scenario{
-			{Name: "2val-rich", Cfg: baseCfg(), Alphabet: richAlphabet(), K: k, D: d, Tail: 1},
+			// (+ a fee that carries a denomination its payer does not hold)
+			{Name: "2val-rich", Cfg: baseCfg(), Alphabet: append(richAlphabet(), txB("send(k3->k2,1) fee + 5abc (k3 holds no abc)", chain.TxSpec{Msg: "send", From: 3, To: 2, Amount: 1, FeeAbc: 5})), K: k, D: d, Tail: 1},
 			{Name: "3val-equal-max2", Cfg: cfg3equal(), Alphabet: append(stakingAlphabet(), setAlphabet()...), K: k2, D: d2, Tail: 1},
 			// single miss jails: slashes and burns of an already jailed validator within two deviations
 			{Name: "3val-jail-fast", Cfg: cfgJailFast(), Alphabet: append(stakingAlphabet(), jailFastAlphabet()...), K: k2, D: d2, Tail: 1},
